@@ -25,7 +25,9 @@ import (
 	"github.com/smart-core-os/sc-golang/pkg/trait/fanspeedpb"
 	"github.com/smart-core-os/sc-golang/pkg/trait/lightpb"
 	"github.com/smart-core-os/sc-golang/pkg/trait/modepb"
+	"github.com/smart-core-os/sc-golang/pkg/resource"
 	"github.com/smart-core-os/sc-golang/pkg/trait/onoffpb"
+	"github.com/smart-core-os/sc-golang/pkg/trait/presspb"
 	"github.com/smart-core-os/sc-golang/pkg/trait/speakerpb"
 	"github.com/smart-core-os/sc-golang/verifharness/cmd/c05/mt"
 	"github.com/smart-core-os/sc-golang/verifharness/lib"
@@ -40,6 +42,7 @@ var traitRoots = []root{
 	{"FanSpeed", func() proto.Message { return &traits.FanSpeed{} }},
 	{"OnOff", func() proto.Message { return &traits.OnOff{} }},
 	{"ModeValues", func() proto.Message { return &traits.ModeValues{} }},
+	{"PressedState", func() proto.Message { return &traits.PressedState{} }},
 }
 
 // the relative adjustment every flagged modepb request carries, and the model's modes (modepb.DefaultModes)
@@ -73,6 +76,12 @@ type trow struct {
 	R mt.Mask
 	// Prepare edits a generated request message so that it stays on the RPC's plain path
 	Prepare func(m proto.Message)
+	// EffMask: the mask the server documents it writes with, given the request's (nil = the request's
+	// own): lightpb.Model adds level_percent to the mask of a request that selects a configured preset
+	EffMask func(written proto.Message, M mt.Mask) mt.Mask
+	// ModelLine: the driver line of a row whose write is an option LIST (nil = one `iset` line);
+	// the model answers `<stored'> <src'>`: the tie compares the stored message
+	ModelLine func(c tcase, out tout, ty int) string
 	// Tie: the outcome is compared with the model (servers without validation of their own and
 	// without derived fields)
 	Tie bool
@@ -385,6 +394,134 @@ func init() {
 	})
 }
 
+func init() {
+	// two more model servers that hand the request's mask to a Value with every field writable:
+	// airtemperaturepb's (a oneof among the fields) and presspb's (enum + timestamps)
+	trows = append(trows, trow{
+		Name: "airtemperaturepb.ModelServer/UpdateAirTemperature", Root: "AirTemperature", W: mt.NilMask(),
+		New: func() tserver {
+			s := airtemperaturepb.NewModelServer(airtemperaturepb.NewModel())
+			return tserver{
+				update: func(m proto.Message, fm *fieldmaskpb.FieldMask, _ bool) (proto.Message, error) {
+					r, err := s.UpdateAirTemperature(ctxBg, &traits.UpdateAirTemperatureRequest{Name: "n", State: m.(*traits.AirTemperature), UpdateMask: fm})
+					if r == nil {
+						return nil, err
+					}
+					return r, err
+				},
+				get: func() proto.Message {
+					r, _ := s.GetAirTemperature(ctxBg, &traits.GetAirTemperatureRequest{Name: "n"})
+					return r
+				},
+			}
+		},
+		Tie: true,
+	}, trow{
+		Name: "presspb.ModelServer/UpdatePressedState", Root: "PressedState", W: mt.NilMask(),
+		New: func() tserver {
+			s := presspb.NewModelServer(presspb.NewModel(traits.PressedState_UNPRESSED))
+			return tserver{
+				update: func(m proto.Message, fm *fieldmaskpb.FieldMask, _ bool) (proto.Message, error) {
+					r, err := s.UpdatePressedState(ctxBg, &traits.UpdatePressedStateRequest{Name: "n", PressedState: m.(*traits.PressedState), UpdateMask: fm})
+					if r == nil {
+						return nil, err
+					}
+					return r, err
+				},
+				get: func() proto.Message {
+					r, _ := s.GetPressedState(ctxBg, &traits.GetPressedStateRequest{Name: "n"})
+					return r
+				},
+			}
+		},
+		Tie: true,
+	})
+}
+
+// the presets the lightpb model of the ModelServer row is configured with (WithPreset): the
+// generator's strings are one letter of a small alphabet, so requests select a configured preset,
+// another one, or none
+var lightPresets = []struct {
+	level float32
+	p     *traits.LightPreset
+}{
+	{40, &traits.LightPreset{Name: "a", Title: "Low"}},
+	{0, &traits.LightPreset{Name: "c", Title: "Off"}},
+}
+
+func lightPresetOf(m proto.Message) (float32, *traits.LightPreset, bool) {
+	b := m.(*traits.Brightness)
+	if b.GetPreset() == nil {
+		return 0, nil, false
+	}
+	for _, lp := range lightPresets {
+		if lp.p.Name == b.Preset.GetName() {
+			return lp.level, lp.p, true
+		}
+	}
+	return 0, nil, false
+}
+
+func init() {
+	// lightpb.ModelServer hands the request's mask to lightpb.Model, whose documented rule is
+	// "WithPreset instructs the model to set the light to the given level when preset p is selected":
+	// the written message gets the preset's level and configured title, and level_percent joins a
+	// non-nil mask (a nil mask - the whole message - stays nil)
+	trows = append(trows, trow{
+		Name: "lightpb.ModelServer/UpdateBrightness", Root: "Brightness", W: mt.NilMask(),
+		New: func() tserver {
+			var opts []resource.Option
+			for _, lp := range lightPresets {
+				opts = append(opts, lightpb.WithPreset(lp.level, proto.Clone(lp.p).(*traits.LightPreset)))
+			}
+			s := lightpb.NewModelServer(lightpb.NewModel(opts...))
+			return tserver{
+				update: func(m proto.Message, fm *fieldmaskpb.FieldMask, _ bool) (proto.Message, error) {
+					r, err := s.UpdateBrightness(ctxBg, &traits.UpdateBrightnessRequest{Name: "n", Brightness: m.(*traits.Brightness), UpdateMask: fm})
+					if r == nil {
+						return nil, err
+					}
+					return r, err
+				},
+				get: func() proto.Message {
+					r, _ := s.GetBrightness(ctxBg, &traits.GetBrightnessRequest{Name: "n"})
+					return r
+				},
+			}
+		},
+		Effective: func(_, written proto.Message, _ bool) proto.Message {
+			level, lp, ok := lightPresetOf(written)
+			if !ok {
+				return written
+			}
+			w := proto.Clone(written).(*traits.Brightness)
+			w.LevelPercent = level
+			w.Preset = proto.Clone(lp).(*traits.LightPreset)
+			return w
+		},
+		EffMask: func(written proto.Message, M mt.Mask) mt.Mask {
+			if _, _, ok := lightPresetOf(written); !ok || M.Nil {
+				return M
+			}
+			return mt.Mask{Paths: append(append([]string{}, M.Paths...), "level_percent")}
+		},
+		// the model is handed the option list the server builds: WithUpdateMask(request mask), then
+		// WithMoreUpdatePaths("level_percent") when a configured preset is selected
+		ModelLine: func(c tcase, out tout, ty int) string {
+			src := out.Written
+			opts := "U" + c.Call.M.Enc()
+			if level, lp, ok := lightPresetOf(src); ok {
+				w := proto.Clone(src).(*traits.Brightness)
+				w.LevelPercent, w.Preset = level, proto.Clone(lp).(*traits.LightPreset)
+				src = w
+				opts += ";p" + (mt.Mask{Paths: []string{"level_percent"}}).Enc()
+			}
+			return fmt.Sprintf("wseq %d _ %s %s@%s", ty, mt.CanonMsg(out.Before), opts, mt.CanonMsg(src))
+		},
+		Tie: true,
+	})
+}
+
 func trowByName(n string) (trow, bool) {
 	for _, r := range trows {
 		if r.Name == n {
@@ -507,7 +644,11 @@ func copyField(dst, src proto.Message, name string) {
 // judge evaluates the property on one trait call: the write-semantics monitor with the server's
 // documented writable fields, the request's mask and the message the flag asks to be written.
 func (c tcase) judge(row trow, mon *lib.Monitor, out tout) (derived []string) {
-	return c.judgeWith(row, c.Call.M, mon, out)
+	M := c.Call.M
+	if row.EffMask != nil && out.Written != nil {
+		M = row.EffMask(out.Written, M)
+	}
+	return c.judgeWith(row, M, mon, out)
 }
 
 func (c tcase) judgeWith(row trow, M mt.Mask, mon *lib.Monitor, out tout) (derived []string) {
@@ -541,6 +682,9 @@ func (c tcase) judgeWith(row trow, M mt.Mask, mon *lib.Monitor, out tout) (deriv
 
 func (c tcase) modelLine(row trow, out tout) string {
 	ty := schema.ID(rootByName(row.Root).MD())
+	if row.ModelLine != nil {
+		return row.ModelLine(c, out, ty)
+	}
 	src := out.Written
 	keys := "_"
 	switch {
@@ -616,8 +760,24 @@ func runTraitCases(cases []tcase, tie *lib.Tie, mon *lib.Monitor, drv *lib.Drive
 		return
 	}
 	for i, r := range rs {
-		tie.Record(r.c.key(), r.c.nontrivial(), r.c, ans[i], r.out.tieText())
+		a := ans[i]
+		if r.row.ModelLine != nil && !strings.HasPrefix(a, "err:") {
+			if fs := strings.Fields(a); len(fs) == 2 {
+				a = fs[0]
+			}
+		}
+		tie.Record(r.c.key(), r.c.nontrivial(), r.c, a, r.out.tieText())
 		tie.Count("server:" + r.row.Name)
+		if r.row.EffMask != nil && r.out.Written != nil {
+			switch eff := r.row.EffMask(r.out.Written, r.c.Call.M); {
+			case len(eff.Paths) != len(r.c.Call.M.Paths):
+				tie.Count("server-rule:mask-widened")
+			case r.row.Effective != nil && !proto.Equal(r.row.Effective(r.out.Before, r.out.Written, r.c.Call.Flag), r.out.Written):
+				tie.Count("server-rule:message-edited-nil-mask")
+			default:
+				tie.Count("server-rule:not-triggered")
+			}
+		}
 		if r.c.Call.Flag {
 			tie.Count("flag:" + r.row.Flag)
 		}
@@ -728,9 +888,9 @@ func genTraitCase(g *mt.Gen) tcase {
 
 func runTraits(f lib.Flags, res *lib.Result, drv *lib.Driver) {
 	tie := res.Tie("trait-servers", "K1",
-		"Update RPCs of real trait servers that hand the request's update_mask to resource.Value.Set, with and without write interceptors (countpb/speakerpb MemoryDevice: delta in InterceptBefore; emergencypb MemoryDevice: change time in InterceptAfter, compared when the level does not change; onoffpb ModelServer, airtemperaturepb MemoryDevice with its writable paths and oneof): a fresh server, 0-2 earlier Update calls, then one call with a generated mask (nil, empty, partial over the writable fields, paths from the descriptor tree incl. corrupted ones), message and flag; the state read with Get before the call, the request and the server's documented writable fields go to the Lean model's valueSetI (countpb with the model's own delta interceptor deltaIcpt on added/removed as BEFORE-interceptor; speakerpb with the harness' float sum as written message), compared with the state Get returns afterwards / the error code; small masks x flags per server first; non-trivial = mask non-nil or flag set; distinct by the whole call history")
+		"Update RPCs of real trait servers that hand the request's update_mask to resource.Value.Set, with and without write interceptors (countpb/speakerpb MemoryDevice: delta in InterceptBefore; emergencypb MemoryDevice: change time in InterceptAfter, compared when the level does not change; onoffpb / airtemperaturepb / presspb ModelServer, airtemperaturepb MemoryDevice with its writable paths and oneof, lightpb MemoryDevice plain path - delta + cap, its own reset paths handed to the model - and preset path, lightpb ModelServer with configured presets - the model is handed the option list the server builds, WithUpdateMask then WithMoreUpdatePaths(level_percent)): a fresh server, 0-2 earlier Update calls, then one call with a generated mask (nil, empty, partial over the writable fields, paths from the descriptor tree incl. corrupted ones), message and flag; the state read with Get before the call, the request and the server's documented writable fields go to the Lean model's valueSetI (countpb with the model's own delta interceptor deltaIcpt on added/removed as BEFORE-interceptor; speakerpb with the harness' float sum as written message), compared with the state Get returns afterwards / the error code; small masks x flags per server first; non-trivial = mask non-nil or flag set; distinct by the whole call history")
 	mon := res.Monitor("trait-write-semantics",
-		"every trait case through the write-semantics monitor at the RPC: fields outside update∩writable unchanged (the server's documented writable fields; fields the server documents as derived from the written ones - emergency level_change_time when the level changes, fan speed percentage/preset/preset_index - exempt), inside: FieldMask update semantics of the message the request asks for (delta / relative: the harness' own sum of stored and written), unknown / read-only paths rejected and nothing changes, empty non-nil mask changes nothing at all (derived fields included), returned message = next Get, no panic; also fanspeedpb ModelServer (relative flag, DeriveValues in InterceptAfter), which is monitored only")
+		"every trait case through the write-semantics monitor at the RPC: fields outside update∩writable unchanged (the server's documented writable fields; fields the server documents as derived from the written ones - emergency level_change_time when the level changes, fan speed percentage/preset/preset_index - exempt), inside: FieldMask update semantics of the message the request asks for (delta / relative: the harness' own sum of stored and written), unknown / read-only paths rejected and nothing changes, empty non-nil mask changes nothing at all (derived fields included), returned message = next Get, no panic; a server rule that widens the mask (lightpb.Model: level_percent joins the non-nil mask of a request that selects a configured preset) is judged with the widened mask; also fanspeedpb ModelServer (relative flag, DeriveValues in InterceptAfter), which is monitored only")
 	runTraitCases(smallTraitCases(), tie, mon, drv)
 	g := &mt.Gen{R: lib.NewRand(f.Seed + 104729)}
 	n := f.N(1500, 30000)
